@@ -513,6 +513,13 @@ def run(ctx: Context, rep) -> None:
     # nothing read from the dataset's files / the environment is memoised
     from sa.rules import shared as _shm
     _shm.check_no_memo(ctx, rep, "C14.memo")
+    # the path stream of every interface has the frozen lazy shape (same
+    # check as C02.batch): an epoch loop over an empty selection never yields
+    from sa.rules import shared as _sh14b
+    _sh14b.share_rules(ctx, rep, "c02", {"C02.batch": "C14.stream"})
+    # dropping a partly consumed native iterator terminates: workers are
+    # told to stop before they are joined (same check as C15.drop)
+    rustrules.check_drop(ctx, rep, "C14.rust-drop")
 
 _IT = "src/sedpack/io/itertools/itertools.py"
 _DI = "src/sedpack/io/dataset_iteration.py"
